@@ -16,6 +16,9 @@ from mc import simsched
 from mc import world as W
 from mc.ref import sched as RS
 
+from mc import localchecks
+from mc.localchecks import expand as local_expand  # noqa: F401 (looked up by name in the workers)
+
 ID = "C08"
 LEVEL = "model_checking"
 
@@ -224,6 +227,8 @@ def run(ctx):
         w0 = CW.init_world(wfname, backend, accounting=acct)
         lv = e2.bfs(ctx, me, "hist_expand", [w0], depth, chunk=4, meta=meta)
         done.append(dict(meta, depth=depth))
+    local_done = localchecks.run_local(ctx, me, ID, [("twocomp", 4), ("fork", 3)] if ctx.tier == "quick" else [("twocomp", 6), ("fork", 5), ("chain", 5)])
+    ctx.notes.setdefault("coverage_extra", {})["local_backend"] = local_done
     ctx.traces_validated = ctx.acc.extra["transitions"]
     ctx.rule = ("codes/matrix/many: one case per (backend, documented code, file state) / (squeue, sacct, accounting, file state) / (N, accounting); hist: distinct "
                 "canonical world states reached by BFS; every case runs the real `gwf status` in a separate invocation")
@@ -233,6 +238,8 @@ def run(ctx):
 
 
 def replay(case):
+    if case.get("kind") == "local":
+        return localchecks.replay(case)
     from mc.runner import Acc
 
     acc = Acc()
